@@ -39,9 +39,8 @@ package val
 //@ pure notNaN(a Value) bool = dyn(a) == Decimal64 ==> !isNaN(a.(Decimal64))
 
 //@ interface Comparable.Compare(y Comparable) int
-//@   requires ordered(self) && sameDyn(self, y) && notNaN(self) && notNaN(y) && enumRange(self) && enumRange(y)
 //@   assigns nothing
-//@   ensures sign(result) == cmpv(self, y)
+//@   ensures ordered(self) && sameDyn(self, y) && notNaN(self) && notNaN(y) && enumRange(self) && enumRange(y) ==> sign(result) == cmpv(self, y)
 
 //@ pure enumRange(a Value) bool = dyn(a) == Enum ==> (-2147483648 <= a.(Enum).Id && a.(Enum).Id <= 2147483647)
 
@@ -227,14 +226,28 @@ package val
 //@   loop 1 decreases len(a) - rangeindex
 //@   ensures result == (len(a) == len(b) && (forall k int :: 0 <= k && k < len(a) ==> sameDyn(a[k], b[k]) && cmpv(a[k], b[k]) == 0))
 
+// the format of a value is a function of its dynamic type (abstraction for callers that do not fix the type)
+//@ pure fmtOther(a Value) Format
+//@ pure fmtOf(a Value) Format = dyn(a) == Int8 ? FmtInt8 : dyn(a) == UInt8 ? FmtUInt8 : dyn(a) == Int16 ? FmtInt16 : dyn(a) == UInt16 ? FmtUInt16 : \
+//@      dyn(a) == Int32 ? FmtInt32 : dyn(a) == UInt32 ? FmtUInt32 : dyn(a) == Int64 ? FmtInt64 : dyn(a) == UInt64 ? FmtUInt64 : \
+//@      dyn(a) == Decimal64 ? FmtDecimal64 : dyn(a) == Enum ? FmtEnum : dyn(a) == Bool ? FmtBool : dyn(a) == String ? FmtString : \
+//@      dyn(a) == IdentRef ? FmtIdentityRef : fmtOther(a)
+//@ interface val.Value.Format() Format
+//@   assigns nothing
+//@   ensures result == fmtOf(self)
+//@ pure goValueOf(a Value) interface{}
+//@ interface val.Value.Value() interface{}
+//@   assigns nothing
+//@   ensures result == goValueOf(self)
+
+//@ pure eqArg(a Value) bool = a != nil ==> ordered(a) && notNaN(a) && enumRange(a)
 //@ func Equal(a Value, b Value) bool
 //@   mode bv
-//@   property C17
-//@   requires a != nil ==> ordered(a) && notNaN(a) && enumRange(a)
-//@   requires b != nil ==> ordered(b) && notNaN(b) && enumRange(b)
+//@   property C17 C16
+//@   maypanic
 //@   assigns nothing
 //@   ensures a == nil || b == nil ==> result == (a == nil && b == nil)
-//@   ensures a != nil && b != nil ==> result == (sameDyn(a, b) && cmpv(a, b) == 0)
+//@   ensures eqArg(a) && eqArg(b) && a != nil && b != nil ==> result == (sameDyn(a, b) && cmpv(a, b) == 0)
 
 // ---- C10: conversion is exact or fails -------------------------------------------------------------
 // The source kinds under contract: every Go integer kind, float32/float64, string, bool. time.Time and
